@@ -90,6 +90,9 @@ M = [
  ("C20-eq-drop-order-swapped", C + "io/network.rs",
   "        drop(blockchain);\n        drop(configs);", "        drop(configs);\n        drop(blockchain);"),
  # ---------------- more behaviour-preserving edits (must stay silent)
+ ("C05-eq-tip-via-first", C + "consensus/blockchain.rs",
+  "            let block = self.blocks.get(new_chain[0].as_ref()).unwrap();\n            previous_block_hash = block.previous_block_hash;",
+  "            let block = self.blocks.get(new_chain.first().unwrap().as_ref()).unwrap();\n            previous_block_hash = block.previous_block_hash;"),
  ("C10-eq-slip-length-two-sided", C + "consensus/slip.rs",
   "        if bytes.len() != SLIP_SIZE {", "        if bytes.len() < SLIP_SIZE || bytes.len() > SLIP_SIZE {"),
  ("C11-eq-let-else-guards", C + "routing_thread.rs",
